@@ -15,6 +15,7 @@ import OrasModel.Driver.Sc
 import OrasModel.Driver.Rf
 import OrasModel.Driver.Pg
 import OrasModel.Driver.Rm
+import OrasModel.Driver.S
 open Oras.Driver
 
 structure DState where
@@ -26,6 +27,7 @@ structure DState where
   cd : Cd.St := {}
   au : Au.St := {}
   rm : Rm.St := {}
+  s : S.St := {}
 
 def answer (r : Option (α × String × String)) (st : DState) (upd : α → DState) : DState × String :=
   match r with
@@ -73,6 +75,7 @@ def handle (st : DState) (line : String) : DState × String :=
           let w := if o'.why.isEmpty then "" else " w=" ++ o'.why
           ({ st with o := o' }, s!"m={m} s={s}{w}")
         | none => (st, "bad-op"))
+  | "s" :: rest => answer (S.step st.s rest) st (fun c => { st with s := c })
   | "rm" :: rest => answer (Rm.step st.rm rest) st (fun c => { st with rm := c })
   | "sk" :: rest => answer (Rm.stepSk st.rm rest) st (fun c => { st with rm := c })
   | "cd" :: rest => answer (Cd.step st.cd rest) st (fun c => { st with cd := c })
